@@ -5,6 +5,7 @@ import (
 	"context"
 	"fmt"
 	"os"
+	"runtime"
 	"strings"
 	"sync"
 	"sync/atomic"
@@ -99,13 +100,101 @@ type rtTask struct {
 	dur   time.Duration
 	err   error
 	done  bool
+	gate  chan struct{} // when set, the task blocks until the gate is closed
 }
 
 func (t *rtTask) Start() {
 	t.count.Add(1)
+	if t.gate != nil {
+		<-t.gate
+	}
 	if t.dur > 0 {
 		time.Sleep(t.dur)
 	}
+}
+
+// TestLastFreeSlotRace: many producers, released together by a spin barrier, push to the same lane whose worker is busy
+// and whose queue has room for only a few of them - over and over. Whoever gets nil must have its task started once the
+// worker is free again; whoever does not fit gets ErrTimeout and its task never runs. The window in which two producers
+// both believe the last slot is theirs is a few nanoseconds wide: it is reached by the number of rounds.
+func TestLastFreeSlotRace(t *testing.T) {
+	rt.Check(t, 6, 300, func(t *rapid.T) {
+		queue := rapid.IntRange(1, 3).Draw(t, "queueSize")
+		lanes := rapid.IntRange(1, 2).Draw(t, "laneSize")
+		producers := rapid.IntRange(3, 12).Draw(t, "producers")
+		rounds := rapid.SampledFrom([]int{100, 300}).Draw(t, "rounds")
+		for r := 0; r < rounds; r++ {
+			ctx, cancel := context.WithCancel(context.Background())
+			tl := tasklane.New(ctx, lanes, queue)
+			tl.SetTimeout(2 * time.Millisecond)
+			gate := make(chan struct{})
+			blockers := make([]*rtTask, lanes)
+			for l := range blockers { // every worker is busy, so nothing is taken out of the target lane's queue for now
+				blockers[l] = &rtTask{gate: gate}
+				if err := tl.PushTask(blockers[l], l); err != nil {
+					t.Fatalf("round %d: PushTask of the blocking task returned %v", r, err)
+				}
+			}
+			for l := range blockers {
+				for i := 0; blockers[l].count.Load() == 0 && i < 2000000; i++ {
+					runtime.Gosched()
+				}
+			}
+			tasks := make([]*rtTask, producers)
+			var arrived atomic.Int32
+			var wg sync.WaitGroup
+			for p := range tasks {
+				tasks[p] = &rtTask{}
+				wg.Add(1)
+				go func(p int) {
+					defer wg.Done()
+					arrived.Add(1)
+					for arrived.Load() < int32(producers) { // spin barrier: all producers call PushTask at the same moment
+					}
+					tasks[p].err = tl.PushTask(tasks[p], 0)
+				}(p)
+			}
+			wg.Wait()
+			close(gate)
+			accepted := 0
+			for _, tk := range tasks {
+				if tk.err == nil {
+					accepted++
+				}
+			}
+			deadline := time.Now().Add(5 * time.Second)
+			started := func() (n int) {
+				for _, tk := range tasks {
+					if tk.err == nil && tk.count.Load() > 0 {
+						n++
+					}
+				}
+				return
+			}
+			for started() < accepted && time.Now().Before(deadline) {
+				time.Sleep(200 * time.Microsecond)
+			}
+			time.Sleep(time.Millisecond)
+			for p, tk := range tasks {
+				c := tk.count.Load()
+				switch {
+				case c > 1:
+					t.Fatalf("round %d: task of producer %d was started %d times", r, p, c)
+				case tk.err != nil && c > 0:
+					t.Fatalf("round %d: task of producer %d was started although PushTask returned %v", r, p, tk.err)
+				case tk.err == nil && c == 0:
+					t.Fatalf("round %d: %d producers raced for the free slots of one lane (queueSize %d, laneSize %d): PushTask returned nil for %d tasks, but only %d were started within 5s of the worker becoming free", r, producers, queue, lanes, accepted, started())
+				}
+			}
+			cancel()
+			tl.Wait()
+		}
+		ev.Label("last_free_slot_race")
+		ev.LabelN("last_free_slot_rounds", int64(rounds))
+		ev.Case(true, ev.Hash("slot", fmt.Sprint(queue, lanes, producers, rounds)), func() string {
+			return fmt.Sprintf("%d rounds of %d producers racing for the free slots of one lane (queueSize %d, laneSize %d, every worker busy)", rounds, producers, queue, lanes)
+		})
+	})
 }
 
 func TestRealTimeStress(t *testing.T) {
